@@ -8,6 +8,13 @@ CONSTANTS
   FetchInterval = "request"
   WriteOrder <- NoSyncOrder
   AllowNewFrac = FALSE
+  NOther = 0
+  ONF = 0
+  ONFs = {0}
+  OthCorpora <- OthAll
+  Ghosts <- NoGhost
+  DoneRule = "all"
+  EmitVec = FALSE
   Emit = FALSE
 INVARIANT TypeOK
 INVARIANT FinalFilesComplete
